@@ -230,24 +230,63 @@ func load(rows []pred.Row) {
 	}
 }
 
-var finNames = []string{"Find", "FindInline", "Count", "Update", "Delete", "FirstPK", "UpdatePK", "DeletePK", "Pluck"}
+var finNames = []string{"Find", "FindInline", "Count", "Update", "Delete", "FirstPK", "UpdatePK", "DeletePK", "Pluck", "FirstInline", "DeleteInline"}
+
+// spellings of one finisher that share its meaning (cc.variant picks one)
+var findVariants = []string{"Find", "Model.Scan", "Model.Rows"}
+var updateVariants = []string{"Update", "Updates(map)", "UpdateColumn", "UpdateColumns(map)"}
 
 type chainCase struct {
 	steps  []pred.GroupStep
 	fin    int
 	inline *pred.Unit
 	pk     int64
+	// variant: which spelling of the finisher is called
+	variant int
 }
 
-func genChain(r *core.Rand, st pred.Style, nrows int) chainCase {
-	n := r.Range(1, 4)
-	var cc chainCase
+func (cc chainCase) finName() string {
+	switch finNames[cc.fin] {
+	case "Find":
+		return findVariants[cc.variant%len(findVariants)]
+	case "Update", "UpdatePK":
+		return finNames[cc.fin] + ":" + updateVariants[cc.variant%len(updateVariants)]
+	}
+	return finNames[cc.fin]
+}
+
+// emptyUnit: a condition value that adds no condition (empty map, zero struct). Only generated as a Where / inline
+// unit behind a unit that does add one: alone it would leave an Or call first in its group.
+func emptyUnit(r *core.Rand) *pred.Unit {
+	var v interface{}
+	desc := ""
+	switch r.Intn(4) {
+	case 0:
+		v, desc = map[string]interface{}{}, "map[]"
+	case 1:
+		v, desc = pred.Row{}, "Row{}"
+	case 2:
+		v, desc = &pred.Row{}, "&Row{}"
+	default:
+		v, desc = map[string]string{}, "map[string]string{}"
+	}
+	return &pred.Unit{Form: "empty", Desc: desc, Canon: true, Pos: &pred.Node{Kind: pred.True},
+		Query: func(*gorm.DB) (interface{}, []interface{}) { return v, nil }}
+}
+
+// genSteps: n condition calls; the first is never Or unless the steps continue a chain (cont)
+func genSteps(r *core.Rand, st pred.Style, n int, cont bool) []pred.GroupStep {
+	var steps []pred.GroupStep
 	for i := 0; i < n; i++ {
 		ops := []string{"where", "where", "not", "or"}
-		if i == 0 {
+		if i == 0 && !cont {
 			ops = []string{"where", "where", "not"}
 		}
 		op := core.Pick(r, ops)
+		if op == "where" && (i > 0 || cont) && r.Chance(1, 12) {
+			steps = append(steps, pred.GroupStep{Op: op, U: emptyUnit(r)})
+			continue
+		}
 		var u *pred.Unit
 		for try := 0; ; try++ {
 			u = pred.RandUnit(r, st)
@@ -259,11 +298,21 @@ func genChain(r *core.Rand, st pred.Style, nrows int) chainCase {
 				break
 			}
 		}
-		cc.steps = append(cc.steps, pred.GroupStep{Op: op, U: u})
+		steps = append(steps, pred.GroupStep{Op: op, U: u})
 	}
+	return steps
+}
+
+func genChain(r *core.Rand, st pred.Style, nrows int) chainCase {
+	var cc chainCase
+	cc.steps = genSteps(r, st, r.Range(1, 4), false)
 	cc.fin = r.Intn(len(finNames))
-	if finNames[cc.fin] == "FindInline" {
+	cc.variant = r.Intn(12)
+	if strings.HasSuffix(finNames[cc.fin], "Inline") {
 		cc.inline = pred.RandUnit(r, st)
+		if r.Chance(1, 12) {
+			cc.inline = emptyUnit(r)
+		}
 	}
 	if strings.HasSuffix(finNames[cc.fin], "PK") {
 		cc.pk = int64(r.Range(1, nrows+1))
@@ -277,6 +326,9 @@ func (cc chainCase) desc() string {
 		parts = append(parts, fmt.Sprintf("%s(%s)", strings.Title(s.Op), s.U.Desc))
 	}
 	d := "db." + strings.Join(parts, ".") + "." + finNames[cc.fin]
+	if v := cc.finName(); v != finNames[cc.fin] {
+		d += "{" + v + "}"
+	}
 	if cc.inline != nil {
 		d += "[inline " + cc.inline.Desc + "]"
 	}
@@ -298,7 +350,7 @@ func (cc chainCase) shape() string {
 	if cc.inline != nil {
 		parts = append(parts, "inline:"+cc.inline.Form)
 	}
-	return strings.Join(parts, ",") + ">" + finNames[cc.fin]
+	return strings.Join(parts, ",") + ">" + cc.finName()
 }
 
 func treeShape(n *pred.Node) string {
@@ -366,10 +418,30 @@ func observe(cc chainCase, table []pred.Row) (ids []int64, problems []string, mu
 		var out []pred.Row
 		db := build(cc, root)
 		var res *gorm.DB
-		if cc.inline != nil {
+		switch {
+		case cc.inline != nil:
 			q, args := cc.inline.Query(H.DB)
 			res = db.Find(&out, append([]interface{}{q}, args...)...)
-		} else {
+		case cc.finName() == "Model.Scan":
+			res = build(cc, root.Model(&pred.Row{})).Scan(&out)
+		case cc.finName() == "Model.Rows":
+			rows, err := build(cc, root.Model(&pred.Row{})).Select("id").Rows()
+			if err != nil {
+				return nil, nil, false, "", err
+			}
+			for n := 0; rows.Next() && n < 1000; n++ {
+				var id int64
+				if err := rows.Scan(&id); err != nil {
+					rows.Close()
+					return nil, nil, false, "", err
+				}
+				ids = append(ids, id)
+			}
+			if err := rows.Close(); err != nil {
+				return nil, nil, false, "", err
+			}
+			return pred.SortIDs(ids), nil, false, "", nil
+		default:
 			res = db.Find(&out)
 		}
 		if res.Error != nil {
@@ -397,7 +469,17 @@ func observe(cc chainCase, table []pred.Row) (ids []int64, problems []string, mu
 		return []int64{n}, nil, false, "", nil
 	case "Update", "UpdatePK":
 		m := &pred.Row{ID: cc.pk}
-		res := build(cc, root.Model(m)).Update("mark", markVal)
+		var res *gorm.DB
+		switch updateVariants[cc.variant%len(updateVariants)] {
+		case "Updates(map)":
+			res = build(cc, root.Model(m)).Updates(map[string]interface{}{"mark": markVal})
+		case "UpdateColumn":
+			res = build(cc, root.Model(m)).UpdateColumn("mark", markVal)
+		case "UpdateColumns(map)":
+			res = build(cc, root.Model(m)).UpdateColumns(map[string]interface{}{"mark": markVal})
+		default:
+			res = build(cc, root.Model(m)).Update("mark", markVal)
+		}
 		mutated = true
 		if res.Error != nil {
 			return nil, nil, true, "", res.Error
@@ -409,8 +491,14 @@ func observe(cc chainCase, table []pred.Row) (ids []int64, problems []string, mu
 		if n := vdb.Ints(H.SQL, "SELECT count(*) FROM rws"); n[0] != int64(len(table)) {
 			problems = append(problems, "row count changed by Update")
 		}
-	case "Delete", "DeletePK":
-		res := build(cc, root).Delete(&pred.Row{ID: cc.pk})
+	case "Delete", "DeletePK", "DeleteInline":
+		var res *gorm.DB
+		if cc.inline != nil {
+			q, args := cc.inline.Query(H.DB)
+			res = build(cc, root).Delete(&pred.Row{}, append([]interface{}{q}, args...)...)
+		} else {
+			res = build(cc, root).Delete(&pred.Row{ID: cc.pk})
+		}
 		mutated = true
 		if res.Error != nil {
 			return nil, nil, true, "", res.Error
@@ -427,9 +515,15 @@ func observe(cc chainCase, table []pred.Row) (ids []int64, problems []string, mu
 		if res.RowsAffected != int64(len(ids)) {
 			problems = append(problems, fmt.Sprintf("RowsAffected=%d but %d rows removed", res.RowsAffected, len(ids)))
 		}
-	case "FirstPK":
+	case "FirstPK", "FirstInline":
 		out := pred.Row{ID: cc.pk}
-		res := build(cc, root).First(&out)
+		var res *gorm.DB
+		if cc.inline != nil {
+			q, args := cc.inline.Query(H.DB)
+			res = build(cc, root).First(&out, append([]interface{}{q}, args...)...)
+		} else {
+			res = build(cc, root).First(&out)
+		}
 		if errors.Is(res.Error, gorm.ErrRecordNotFound) {
 			return nil, nil, false, "", nil
 		}
@@ -471,7 +565,7 @@ func run(c *core.Ctx) {
 			if err == nil && got[0] != int64(len(want)) {
 				problems = append(problems, fmt.Sprintf("Count=%d, reference selects %d rows %v", got[0], len(want), want))
 			}
-		case "FirstPK":
+		case "FirstPK", "FirstInline":
 			if err == nil {
 				if len(want) == 0 && len(got) != 0 {
 					problems = append(problems, fmt.Sprintf("First returned id %v, reference selects nothing", got))
@@ -525,19 +619,28 @@ func run(c *core.Ctx) {
 	runSoft(c, st, table)
 	runScopes(c, st, table)
 	runInlineKeys(c, table)
+	runKeys(c, st, table)
+	runScopeTrees(c, st, table)
 }
 
 var Engine = &core.Engine{
 	ID:    "C02",
 	Level: "exploration",
-	Rule: "seeded random tables (0..12 rows, NULLs, duplicates) x chains of 1..4 Where/Not/Or calls (first call never Or) whose units are random condition trees (depth<=3) rendered as raw '?' string, @named string, map, struct, clause.Expression tree (Eq/Neq/Lt/Lte/Gt/Gte/Like/IN/And/Or/Not), grouped sub-builder or several of those handed to one call, with random keyword case / whitespace / redundant parentheses in 3 of 4 cases, " +
-		"x finishers Find, Find+inline, Pluck, Count, Update, Delete, First/Update/Delete with primary key in the model value, and Update/Updates/Delete/First with a (full or unmatched) two-part key in the model value on a composite-key twin table; distinct = (op, form, tree shape, canonical-or-hostile rendering) per unit + finisher; non-trivial = the reference selects neither no row nor every row",
+	Rule: "seeded random tables (0..12 rows, NULLs, duplicates) x chains of 1..4 Where/Not/Or calls (first call never Or) whose units are random condition trees (depth<=3) rendered as raw '?' string, @named string, map, struct, clause.Expression tree (Eq/Neq/Lt/Lte/Gt/Gte/Like/IN/And/Or/Not), grouped sub-builder or several of those handed to one call, with random keyword case / whitespace / redundant parentheses in 3 of 4 cases; a Where or inline unit behind another unit may be an empty map or a zero struct (adds no condition) " +
+		"x finishers Find (also spelt Model.Scan, Model.Rows), Find/First/Delete + inline condition, Pluck, Count, Update (also Updates(map), UpdateColumn, UpdateColumns(map)), Delete, First/Update/Delete with primary key in the model value, and Update/Updates/Delete/First with a (full or unmatched) two-part key in the model value on a composite-key twin table; " +
+		"per table also: 3 chains on a soft-delete twin (expectation: chain AND not marked); key placements (1 chain on the plain and the composite-key table, 2 on the soft-delete table): the key in the finisher's value, in Model() with a keyless finisher value, in both, as a slice of records (key IN ...), for Delete / Update / Updates(map | struct | &struct) / Updates(&record with key) / First / Take / Last, present and absent keys - the key is one more AND unit of the last OR group; " +
+		"scope programs (3 per table): the chain's 2..5 condition calls spread over functions handed to Scopes, which hand further functions to Scopes (depth <= 3, empty and forwarding-only functions included), on the plain or soft-delete table, finishers Find / Pluck / Count then Pluck on one reusable handle / Update / Delete / First, Update, Delete with key / Model(key).Delete(keyless); one of the three is a grouped sub-builder carrying such scopes, db.Where(db.Scopes(...)), followed by 0..2 plain calls; scope siblings on a shared handle; numeric strings as key; " +
+		"distinct = (op, form, tree shape, canonical-or-hostile rendering) per unit + finisher spelling (+ table, key placement, scope depth); non-trivial = the reference selects neither no row nor every row",
 	Assumptions: []string{
 		"SQLite evaluates the emitted SQL correctly (it is the judge of what the SQL text means)",
-		"lower-case ASCII strings only, so SQLite's case-insensitive LIKE agrees with the reference",
+		"lower-case ASCII strings only in condition values, so SQLite's case-insensitive LIKE agrees with the reference",
 		"Not over an AND-combined unit whose members are all raw strings / non-negatable groups is not generated: the statement's 'every member false' and the pinned test-suite expectation NOT (a AND b) disagree there (DESIGN section 4)",
 		"Not over a grouped sub-builder mixing Where and Or is not generated (the statement defines negation for OR units and AND-combined units only)",
 		"composite keys in the model value always have all parts non-zero (gorm reads a partly zero key differently in Update and Delete, the statement fixes neither); several condition values in one call are never given to Not",
+		"an empty map / zero struct is generated only as a Where or inline unit that follows a unit which adds a condition, never under Not or Or and never first in the chain (alone it would leave an Or call first in its group, which the quantifier excludes)",
+		"scope programs: gorm runs scope functions after the chain's own calls and functions registered by a function after all functions of the same round; an Or call is generated only when that order is the order in which the program reads (depth first), otherwise every call of the program is Where or Not, whose order is immaterial; a sub-builder with scopes is used under Where only, and is not followed by Or when its own calls and directly registered scopes add no condition",
+		"Model(value with key) followed by a read into another destination is not judged (gorm adds no key condition there; observed only on the composite table); a record carrying a key is never given to Updates together with a different key in Model() (that would assign the key column)",
+		"slices of records as model value carry only non-zero keys",
 	},
 	Cases: func(tier string) int {
 		if tier == "thorough" {
